@@ -58,7 +58,7 @@ PROPS = {
         nontrivial=lambda p: bool(prog_kinds(p) & {"concat", "replace"}),
     ),
     "C03": dict(
-        gens=[tlc("c02"), rand("stream_ascii", 600, "quick"), rand("stream_ascii", 30000, "thorough")],
+        gens=[tlc("c02"), tlc("c04"), rand("stream_ascii", 600, "quick"), rand("stream_ascii", 30000, "thorough")],
         tv_props=["C03"],
         must_fire=["C03.map_equals_stream_columns", "C03.map_equals_stream_lines", "C03.none_iff_no_mapped_chunk"],
         rule="as C02; every map() answer is resolved at every byte position and compared with the covering chunk of the "
@@ -66,7 +66,7 @@ PROPS = {
         nontrivial=lambda p: bool(prog_kinds(p) & {"concat", "replace", "cached"}) and bool(prog_kinds(p) & {"orig", "sms"}),
     ),
     "C04": dict(
-        gens=[tlc("c02"), rand("orig_trees", 700, "quick"), rand("orig_trees", 30000, "thorough")],
+        gens=[tlc("c02"), tlc("c04"), rand("orig_trees", 700, "quick"), rand("orig_trees", 30000, "thorough")],
         tv_props=["C04"],
         must_fire=["C04.segments_point_to_origin", "C04.originals_covered", "C04.raw_unmapped",
                    "C04.statement_starts_exact", "C04.sources_table", "C04.lines_first_original"],
